@@ -405,7 +405,7 @@ LEX_ADV = ["", "a\\\\", "\\\\", "xsd:foo", "a\\\"^^b", "^^", "a\tb", "a  b", "rd
            XSD, "a\t#b", "x \\\\"]
 CMT_POOL = ["", " c", " a comment", " c # d", " say \"hi\"", " one \" quote", " ex:s ex:p ex:o .", " ;", "\t tab",
             " é", "#", " <http://e/x>", " it's", " . ; ,", " @prefix x: <http://x/> ."]
-CMT_ADV = [" \" #x", "\"#", " a \" b\t#c", " \"a\" \"b\" #z"]
+CMT_ADV = [" \" #x", "\"#", " a \" b\t#c", " \"a\" \"b\" #z", " \\\"", " say \\\"hi\\\""]
 GAPS = [" ", " ", " ", "  ", "\t", " \t ", "   "]
 LEADS = ["", "", "", " ", "\t", "    "]
 
